@@ -357,14 +357,14 @@ theorem ws_admit (p : Policy) (c v : Nat) : (admit p c v).1.weightedSize = p.wei
 
 /-- evictFromMain: only evictions (and jitter draws) -/
 theorem WL_evictFromMain_go {S : List Nat} (fuel : Nat) : ∀ (p : Policy) (vq cq : Nat) (v c : Option Nat),
-    LInv S p → WInv p → WInv (evictFromMain.go p vq cq v c fuel) := by
+    LInv S p → WInv p → WInv (evictFromMainX.go p vq cq v c fuel).1 := by
   induction fuel with
-  | zero => intro p vq cq v c _ hw; unfold evictFromMain.go; exact hw
+  | zero => intro p vq cq v c _ hw; unfold evictFromMainX.go; exact hw
   | succ fuel ih =>
     intro p vq cq v c hi hw
     have hadm : ∀ a b, WInv (admit p a b).1 := fun a b =>
       winv_same hw _ (all_admit p a b) (fun x => node_admit p a b x) (ws_admit p a b)
-    unfold evictFromMain.go
+    unfold evictFromMainX.go
     simp only
     repeat' split
     all_goals first
@@ -375,7 +375,7 @@ theorem WL_evictFromMain_go {S : List Nat} (fuel : Nat) : ∀ (p : Policy) (vq c
       | skip
 
 theorem winv_evictNodes {S : List Nat} {p : Policy} (hi : LInv S p) (hw : WInv p) : WInv (evictNodes p) := by
-  unfold Policy.evictNodes evictFromMain
+  unfold Policy.evictNodes evictFromMain evictFromMainX
   simp only
   have hm := mv_evictFromWindow p hi.c
   exact WL_evictFromMain_go _ _ _ _ _ _ (hi.mv hm) (winv_mv hm (wk_evictFromWindow p) hw)
